@@ -628,6 +628,7 @@ def _run(ctx, sp, pool, clock, html_sink, C, H, I):
     threaded(ctx, sp, pool, clock, classes, pool_index)
     sentinel(ctx, sp)
     perkey_witness(ctx, sp, clock, classes)
+    cross_type_equal(ctx, clock, classes)
 
 
 def check_last(ctx, kn, kind, renders, m, replay, soft=False):
@@ -800,6 +801,29 @@ def sentinel(ctx, sp):
         miss.append("__exit__: set done, join thread")
     if miss:
         ctx.broke("sentinel _run_update_thread/__exit__ shape", miss)
+
+
+def cross_type_equal(ctx, clock, classes):
+    """Values that are equal across types (True == 1 == 1.0) share a dict key; outside the model's value table, so only the
+    monitor runs: no renderer may raise."""
+    scopes = [(True, "x"), (1, "y"), (1.0, 2), (0,), (False, 2), (1,), (True,), (0.0, "x"), (1 + 0j,)]
+    for kind in range(3):
+        clock.set([F(0)])
+        obs = make_obs(kind, F(0), classes, [])
+        try:
+            for i, sc in enumerate(scopes):
+                obs.increment_total(section="run", scope=sc, amount=1)
+            for i, sc in enumerate(scopes[:4]):
+                clock.set([F(i + 1)])
+                obs.increment_running(section="run", scope=sc)
+                clock.set([F(i + 1), F(i + 1)])
+                with contextlib.redirect_stdout(io.StringIO()):
+                    with obs._lock:
+                        obs._do_render()
+        except Exception as exc:  # noqa
+            ctx.fail("unorderable-scope" if isinstance(exc, TypeError) else "render-raises:cross-type:%s" % type(exc).__name__,
+                     "observer %d raised %r on scopes with cross-type-equal values" % (kind, exc), {"scopes": repr(scopes), "kind": kind})
+        ctx.case(("cross-type-equal", kind))
 
 
 def perkey_witness(ctx, sp, clock, classes):
